@@ -203,10 +203,16 @@ func Parse(input string) (Version, error) {
 	return result, parseInto(&result, input)
 }
 
-func parseInto(result *Version, input string) error {
+func parseInto(result *Version, input string) (err error) {
 	/* the parts that are absent from the input must not survive from
-	 * whatever the receiver held before */
+	 * whatever the receiver held before, and a rejected input leaves
+	 * nothing behind */
 	*result = Version{}
+	defer func() {
+		if err != nil {
+			*result = Version{}
+		}
+	}()
 
 	trimmed := strings.TrimSpace(input)
 	if trimmed == "" {
